@@ -26,7 +26,10 @@ the moment of each call) and its running/enabled state are reported.
 Input  : {"id":..,"binary":..,"setup_dir":"/var/lib/..","snap":[4 system paths],"unit_dir":..,
           "service":..,"files":[[path,mode,hex]..],"running":b,"enabled":b,"cmds":[[args..]..],
           "faults":[[exit status of the k-th systemctl call of command i; 0 = behave normally]..],
-          "delays":[[seconds the k-th systemctl call of command i takes]..]}
+          "delays":[[seconds the k-th systemctl call of command i takes]..],
+          "kills":{"<i>":[syscall, n]}   command i is killed (SIGKILL via strace) on entering its n-th <syscall>,
+          "trace":["<i>"..]              command i runs under strace; its file-level syscalls are reported,
+          "dump":true                    small files' contents are reported too (state.data)}
 Output : {"id":..,"init":STATE,"steps":[{"args":[..],"rc":n,"state":STATE,
           "calls":[[args,[h at begin..],rc,[h at end..],[args of calls begun meanwhile]]..]}]}
 STATE  : {"files":{path:[mode,sha256]},"dirs":[..],"links":{path:target},"running":b,"enabled":b}
@@ -63,6 +66,7 @@ def bind_ro(src, tgt):
     mount(None, tgt, None, MS_BIND | MS_REMOUNT | MS_RDONLY)
 
 
+TRACED = "openat,mkdir,copy_file_range,sendfile,fchmod,unlink,unlinkat,rename,renameat,renameat2"
 RO_DIRS = ["/usr/bin", "/usr/lib/x86_64-linux-gnu", "/usr/lib64"]
 SKIP = ("/proc", "/dev", "/standin") + tuple(RO_DIRS)
 
@@ -113,8 +117,9 @@ class Root:
             umount(m)
         shutil.rmtree(self.root, ignore_errors=True)
 
-    def state(self):
+    def state(self, dump=False):
         files, dirs, links = {}, [], {}
+        data = {}
         base = self.root
         stack = ["/"]
         while stack:
@@ -137,12 +142,15 @@ class Root:
                     stack.append(p)
                 elif os.path.isfile(full):
                     with open(full, "rb") as f:
-                        files[p] = [m & 0o7777, hashlib.sha256(f.read()).hexdigest()]
+                        b = f.read()
+                    files[p] = [m & 0o7777, hashlib.sha256(b).hexdigest()]
+                    if dump and len(b) <= 4096:
+                        data[p] = b.hex()
                 else:
                     files[p] = [m & 0o7777, "special:%o" % (m >> 12)]
         st = base + "/standin/state/"
         svc = self.sc["service"]
-        return {"files": files, "dirs": sorted(dirs), "links": links,
+        return {"files": files, "dirs": sorted(dirs), "links": links, **({"data": data} if dump else {}),
                 "running": os.path.exists(st + svc + ".running"),
                 "enabled": os.path.exists(st + svc + ".enabled")}
 
@@ -181,7 +189,11 @@ class Root:
             os.unlink(p)
         return out
 
-    def run(self, args, faults=(), delays=()):
+    def run(self, args, faults=(), delays=(), kill=None, trace=False):
+        """kill = [syscall name, n]: the tool runs under strace and gets SIGKILL on entering its n-th
+        invocation of that syscall (counted in the tool's main thread, chroot's own calls included:
+        take n from a `trace` run).  trace = True: run under strace and return the main thread's
+        file-level syscalls as ["name", "rest of the line"] in self.last_trace."""
         fp = self.root + "/standin/state/faults"
         with open(fp, "w") as f:
             f.write("".join("%d\n" % int(x) for x in faults))
@@ -193,8 +205,29 @@ class Root:
             def enter():
                 os.chroot(root)
                 os.chdir("/")
-            p = subprocess.run([self.exe] + list(args), executable=self.exe, env=self.env, stdin=subprocess.DEVNULL,
-                               stdout=subprocess.PIPE, stderr=subprocess.PIPE, timeout=300, preexec_fn=enter)
+            self.last_trace = None
+            if kill or trace:
+                tf = self.root + "/standin/state/strace.out"
+                cmd = ["/usr/bin/strace", "-f", "-o", tf, "-e", "trace=" + TRACED]
+                if kill:
+                    cmd += ["-e", "inject=%s:signal=SIGKILL:when=%d" % (kill[0], int(kill[1]))]
+                cmd += ["/usr/sbin/chroot", root, self.exe] + list(args)
+                p = subprocess.run(cmd, env=self.env, stdin=subprocess.DEVNULL, stdout=subprocess.PIPE,
+                                   stderr=subprocess.PIPE, timeout=300)
+                if trace and os.path.exists(tf):
+                    lines = open(tf, errors="replace").read().split("\n")
+                    main = lines[0].split()[0] if lines and lines[0] else ""
+                    tr = []
+                    for l in lines:
+                        f = l.split(None, 1)
+                        if len(f) == 2 and f[0] == main and "(" in f[1]:
+                            tr.append([f[1].split("(", 1)[0], f[1]])
+                    self.last_trace = tr
+                if os.path.exists(tf):
+                    os.unlink(tf)
+            else:
+                p = subprocess.run([self.exe] + list(args), executable=self.exe, env=self.env, stdin=subprocess.DEVNULL,
+                                   stdout=subprocess.PIPE, stderr=subprocess.PIPE, timeout=300, preexec_fn=enter)
             rc, err = p.returncode, p.stderr.decode(errors="replace")[-400:]
             out = p.stdout.decode(errors="replace")[-1500:]
         except subprocess.TimeoutExpired:
@@ -219,9 +252,13 @@ def main():
             for k, args in enumerate(sc["cmds"]):
                 faults = (sc.get("faults") or [])[k] if k < len(sc.get("faults") or []) else []
                 delays = (sc.get("delays") or [])[k] if k < len(sc.get("delays") or []) else []
-                rc, out, err = r.run(args, faults, delays)
+                kill = (sc.get("kills") or {}).get(str(k))
+                trace = str(k) in (sc.get("trace") or [])
+                rc, out, err = r.run(args, faults, delays, kill, trace)
                 calls = r.calls()          # waits for invocations still in progress
-                step = {"args": args, "rc": rc, "state": r.state(), "calls": calls}
+                step = {"args": args, "rc": rc, "state": r.state(sc.get("dump")), "calls": calls}
+                if trace:
+                    step["trace"] = r.last_trace
                 if verbose or rc not in (0, 1, 101):
                     step["stdout"], step["stderr"] = out, err
                 elif rc == 101:
